@@ -34,8 +34,11 @@ CWD = os.path.join(core.SPEC, "datafile")
 FIELD_FAMILIES = ["none", "magic", "version", "size", "swaplen", "nit", "ni", "nd", "si", "sd",
                   "nit+fix", "ni+fix", "nd+fix", "si+fix", "sd+fix", "t_id", "t_start", "t_num",
                   "ioff", "doff", "dsize", "it_tid", "it_id", "it_size", "it_shift", "it_w", "dbyte"]
+# every family must also have run on the crude (V4Crude) header variants of the bases
+FIELD_FAMILIES += ["crude/" + f for f in FIELD_FAMILIES if "+fix" not in f] + ["crude/nd", "crude/sd"]
 VERDICTS = ["ok", "WrongMagic", "UnsupportedVersion", "MalformedHeader", "TooShort", "Malformed",
-            "data:ok", "data:CompressionError", "data:CompressionWrongSize", "data:unspec"]
+            "data:ok", "data:CompressionError", "data:CompressionWrongSize", "data:unspec",
+            "ver:V3", "ver:V4", "ver:V4Crude"]
 
 
 def _scratch(ctx):
